@@ -2,10 +2,20 @@ package mon
 
 import "verifharness/ev"
 
-// Report turns problems into violations carrying the history as witness.
+// Report turns problems into violations carrying the history as witness. Problems
+// whose signature is INCONCLUSIVE (a wait on the code under test exceeded the watchdog:
+// decided once, at the end of the run, by ev.Finish) or HARNESS are not violations.
 func Report(run *ev.Run, caseID string, trace []string, problems []string) {
 	for _, p := range problems {
 		sig, txt := SplitSig(p)
+		switch sig {
+		case "INCONCLUSIVE":
+			run.Inconclusive(caseID + ": " + txt)
+			continue
+		case "HARNESS":
+			run.Fatal(caseID + ": " + txt)
+			continue
+		}
 		t := trace
 		if len(t) > 400 {
 			t = t[len(t)-400:]
